@@ -6,6 +6,9 @@ import Mathlib.Data.String.Basic
 import Mathlib.Data.Prod.Lex
 import Mathlib.Data.List.Sort
 import Mathlib.Order.Monotone.Basic
+import Mathlib.Data.List.Dedup
+import Mathlib.Data.List.Perm.Basic
+import Mathlib.Algebra.BigOperators.Group.List.Basic
 import PgFdr.Model.C05
 
 /-! Helper lemmas for C05: positions, the singleton test, the evidence loop as a filter,
@@ -452,5 +455,553 @@ theorem collect_ok_iff (groups : List (List String)) (pil : List PepInfo) (rz : 
     | error e =>
       obtain ⟨x, hx, hr⟩ := collectLoop_error groups rz suppress pil _ e h
       exact absurd hr (hall x hx)
+
+theorem filterMap_ite {α β : Type} (c : α → Bool) (f : α → β) (l : List α) :
+    l.filterMap (fun x => if c x = true then some (f x) else none) = (l.filter c).map f := by
+  induction l with
+  | nil => rfl
+  | cons x r ih =>
+    by_cases hc : c x = true
+    · simp [List.filterMap_cons, List.filter_cons, hc, ih]
+    · simp [List.filterMap_cons, List.filter_cons, hc, ih]
+
+theorem evFor_discard (groups : List (List String)) (i : Nat) (x : PepInfo) :
+    evFor groups none i x =
+      if (supportOf groups x.proteins == some i) = true then some ⟨x.pep, x.peptide, x.proteins⟩ else none := by
+  unfold evFor assign
+  simp only [filterProteins]
+  cases hs : supportOf groups x.proteins with
+  | none => simp
+  | some j => by_cases hji : j = i <;> simp [hji]
+
+theorem pepFor_discard (groups : List (List String)) (x : PepInfo) :
+    pepFor groups none x =
+      if ((supportOf groups x.proteins).isSome && !isDecoy x.proteins) = true then some x.pep else none := by
+  unfold pepFor assign
+  simp only [filterProteins]
+  cases hs : supportOf groups x.proteins with
+  | none => simp
+  | some j => by_cases hd : isDecoy x.proteins = true <;> simp [hd]
+
+/-! ### razor -/
+
+/-- the candidate tuple in Mathlib's lexicographic linear order -/
+def lexKey (c : Cand) : ℕ ×ₗ ℚ ×ₗ String ×ₗ String :=
+  toLex (c.1, toLex (c.2.1, toLex (c.2.2.1, c.2.2.2)))
+
+theorem candLt_iff (a b : Cand) : candLt a b = true ↔ lexKey a < lexKey b := by
+  obtain ⟨a1, a2, a3, a4⟩ := a
+  obtain ⟨b1, b2, b3, b4⟩ := b
+  simp only [candLt, lexKey, Prod.Lex.toLex_lt_toLex, Bool.or_eq_true, Bool.and_eq_true,
+    decide_eq_true_eq, beq_iff_eq]
+
+theorem lexKey_injective (a b : Cand) (h : lexKey a = lexKey b) : a = b := by
+  obtain ⟨a1, a2, a3, a4⟩ := a
+  obtain ⟨b1, b2, b3, b4⟩ := b
+  simpa [lexKey, Prod.ext_iff] using h
+
+theorem cand_injective (rz : Razor) (p q : String) (h : cand rz p = cand rz q) : p = q := by
+  have := congrArg (fun c : Cand => c.2.2.2) h
+  simpa [cand] using this
+
+/-- a left fold keeping the larger key returns a maximal element -/
+theorem foldl_argmax {α κ : Type} [LinearOrder κ] (k : α → κ) (lt : α → α → Bool)
+    (hlt : ∀ a b, lt a b = true ↔ k a < k b) :
+    ∀ (l : List α) (a : α),
+      l.foldl (fun b q => if lt b q = true then q else b) a ∈ a :: l ∧
+      ∀ q ∈ a :: l, k q ≤ k (l.foldl (fun b q => if lt b q = true then q else b) a) := by
+  intro l
+  induction l with
+  | nil => intro a; simp
+  | cons x r ih =>
+    intro a
+    simp only [List.foldl_cons]
+    by_cases h : lt a x = true
+    · simp only [h, if_true]
+      obtain ⟨hm, hmax⟩ := ih x
+      refine ⟨List.mem_cons_of_mem _ hm, ?_⟩
+      intro q hq
+      rcases List.mem_cons.mp hq with rfl | hq
+      · exact le_trans (le_of_lt ((hlt _ _).mp h)) (hmax x (by simp))
+      · exact hmax q hq
+    · have h' : lt a x = false := by simpa using h
+      simp only [h', Bool.false_eq_true, if_false]
+      obtain ⟨hm, hmax⟩ := ih a
+      refine ⟨?_, ?_⟩
+      · rcases List.mem_cons.mp hm with h1 | h1
+        · rw [h1]; simp
+        · exact List.mem_cons_of_mem _ (List.mem_cons_of_mem _ h1)
+      · intro q hq
+        rcases List.mem_cons.mp hq with rfl | hq
+        · exact hmax _ (by simp)
+        · rcases List.mem_cons.mp hq with rfl | hq
+          · have : ¬ k a < k q := fun hh => h ((hlt _ _).mpr hh)
+            exact le_trans (not_lt.mp this) (hmax a (by simp))
+          · exact hmax q (List.mem_cons_of_mem _ hq)
+
+theorem razorPick_spec (rz : Razor) (ps : List String) (r : String) (h : razorPick rz ps = some r) :
+    r ∈ ps ∧ ∀ q ∈ ps, lexKey (cand rz q) ≤ lexKey (cand rz r) := by
+  cases ps with
+  | nil => simp [razorPick] at h
+  | cons p ps =>
+    simp only [razorPick, Option.some.injEq] at h
+    have := foldl_argmax (fun q => lexKey (cand rz q)) (fun b q => candLt (cand rz b) (cand rz q))
+      (fun a b => candLt_iff _ _) ps p
+    rw [h] at this
+    exact this
+
+theorem razorPick_isSome (rz : Razor) (ps : List String) (h : ps ≠ []) : ∃ r, razorPick rz ps = some r := by
+  cases ps with
+  | nil => exact absurd rfl h
+  | cons p ps => exact ⟨_, rfl⟩
+
+theorem minRat_mem : ∀ (l : List Rat) (a : Rat), minRat a l ∈ a :: l := by
+  intro l
+  induction l with
+  | nil => intro a; simp [minRat]
+  | cons b r ih =>
+    intro a
+    simp only [minRat]
+    have := ih (if b < a then b else a)
+    rcases List.mem_cons.mp this with h | h
+    · rw [h]; split <;> simp
+    · exact List.mem_cons_of_mem _ (List.mem_cons_of_mem _ h)
+
+theorem minRat_le : ∀ (l : List Rat) (a : Rat), ∀ q ∈ a :: l, minRat a l ≤ q := by
+  intro l
+  induction l with
+  | nil => intro a q hq; simp [minRat] at hq ⊢; rw [hq]
+  | cons b r ih =>
+    intro a q hq
+    simp only [minRat]
+    have hle : ∀ q' ∈ (if b < a then b else a) :: r, minRat (if b < a then b else a) r ≤ q' := ih _
+    have hhead := hle (if b < a then b else a) (List.mem_cons_self ..)
+    rcases List.mem_cons.mp hq with rfl | hq
+    · refine le_trans hhead ?_
+      split
+      · rename_i h; exact le_of_lt h
+      · exact le_refl _
+    · rcases List.mem_cons.mp hq with rfl | hq
+      · refine le_trans hhead ?_
+        split
+        · exact le_refl _
+        · rename_i h; exact not_lt.mp h
+      · exact hle q (List.mem_cons_of_mem _ hq)
+
+/-- `get_best_peptide_score_per_protein`: the smallest PEP among the peptides listing `p` -/
+theorem bestPepOf_spec (pil : List PepInfo) (p : String) (x0 : PepInfo) (hx0 : x0 ∈ pil) (hp0 : p ∈ x0.proteins) :
+    (∃ x ∈ pil, p ∈ x.proteins ∧ x.pep = bestPepOf pil p) ∧
+    ∀ x ∈ pil, p ∈ x.proteins → bestPepOf pil p ≤ x.pep := by
+  unfold bestPepOf
+  have hmem : ∀ x, x ∈ pil.filter (fun x => x.proteins.contains p) ↔ x ∈ pil ∧ p ∈ x.proteins := by
+    intro x; simp [List.mem_filter]
+  cases hl : (pil.filter (fun x => x.proteins.contains p)).map (·.pep) with
+  | nil =>
+    have : x0 ∈ pil.filter (fun x => x.proteins.contains p) := (hmem x0).mpr ⟨hx0, hp0⟩
+    have : x0.pep ∈ (pil.filter (fun x => x.proteins.contains p)).map (·.pep) := List.mem_map_of_mem this
+    rw [hl] at this; simp at this
+  | cons a r =>
+    simp only
+    constructor
+    · have := minRat_mem r a
+      rw [← hl] at this
+      obtain ⟨x, hx, hxe⟩ := List.mem_map.mp this
+      exact ⟨x, ((hmem x).mp hx).1, ((hmem x).mp hx).2, hxe⟩
+    · intro x hx hp
+      apply minRat_le r a
+      rw [← hl]
+      exact List.mem_map_of_mem ((hmem x).mpr ⟨hx, hp⟩)
+
+theorem bestPepOf_default (pil : List PepInfo) (p : String) (h : ∀ x ∈ pil, p ∉ x.proteins) :
+    bestPepOf pil p = 1 ∧ peptideCount pil p = 0 := by
+  have : pil.filter (fun x => x.proteins.contains p) = [] := by
+    rw [List.filter_eq_nil_iff]
+    intro x hx
+    simpa using h x hx
+  unfold bestPepOf peptideCount
+  rw [this]; simp
+
+theorem evFor_razor (groups : List (List String)) (rz : Razor) (i : Nat) (x : PepInfo) (e : Evidence) :
+    evFor groups (some rz) i x = some e ↔
+      ∃ r, razorPick rz x.proteins = some r ∧ e = ⟨x.pep, x.peptide, [r]⟩ ∧ idxOf groups r = some i := by
+  unfold evFor assign
+  simp only [filterProteins]
+  cases hr : razorPick rz x.proteins with
+  | none => simp
+  | some r =>
+    simp only
+    cases hs : supportOf groups [r] with
+    | none =>
+      simp only [reduceCtorEq, false_iff]
+      rintro ⟨r', hr', _, hidx⟩
+      have : r' = r := by simpa using hr'.symm
+      subst this
+      have := (supportOf_eq_some groups [r'] i).mpr ⟨by simp, by simpa using hidx⟩
+      rw [hs] at this; simp at this
+    | some j =>
+      have hj := (supportOf_eq_some groups [r] j).mp hs
+      have hjr : idxOf groups r = some j := hj.2 r (by simp)
+      simp only
+      by_cases hji : j = i
+      · subst hji
+        simp only [if_true, Option.some.injEq]
+        constructor
+        · intro h; exact ⟨r, rfl, h.symm, hjr⟩
+        · rintro ⟨r', hr', he, _⟩
+          have : r' = r := by simpa using hr'.symm
+          subst this; exact he.symm
+      · simp only [hji, if_false, reduceCtorEq, false_iff]
+        rintro ⟨r', hr', _, hidx⟩
+        have : r' = r := by simpa using hr'.symm
+        subst this
+        rw [hjr] at hidx
+        exact hji (by simpa using hidx)
+
+/-- whatever the mode, the evidence a peptide contributes determines the position it went to -/
+theorem evFor_position (groups : List (List String)) (rz : Option Razor) (i : Nat) (x : PepInfo) (e : Evidence)
+    (h : evFor groups rz i x = some e) : e.proteins ≠ [] ∧ ∀ p ∈ e.proteins, idxOf groups p = some i := by
+  unfold evFor assign at h
+  cases hf : filterProteins rz x.proteins with
+  | error err => rw [hf] at h; simp at h
+  | ok prots =>
+    rw [hf] at h
+    simp only at h
+    cases hs : supportOf groups prots with
+    | none => rw [hs] at h; simp at h
+    | some j =>
+      rw [hs] at h
+      simp only at h
+      by_cases hji : j = i
+      · subst hji
+        simp only [if_true, Option.some.injEq] at h
+        subst h
+        exact (supportOf_eq_some groups prots j).mp hs
+      · simp [hji] at h
+
+/-! ### best-PEP score -/
+
+theorem foldl_max_antitone {S : Type} [LinearOrder S] (f : Rat → S) (hf : Antitone f) :
+    ∀ (l : List Rat) (a : Rat), (l.map f).foldl max (f a) = f (minRat a l) := by
+  intro l
+  induction l with
+  | nil => intro a; rfl
+  | cons b r ih =>
+    intro a
+    simp only [List.map_cons, List.foldl_cons, minRat]
+    have : max (f a) (f b) = f (if b < a then b else a) := by
+      split
+      · rename_i h
+        exact max_eq_right (hf (le_of_lt h))
+      · rename_i h
+        exact max_eq_left (hf (not_lt.mp h))
+    rw [this]
+    exact ih _
+
+theorem minPep_spec (ev : List Evidence) (m : Rat) (h : minPep ev = some m) :
+    (∃ e ∈ ev, e.pep = m) ∧ ∀ e ∈ ev, m ≤ e.pep := by
+  unfold minPep at h
+  cases hl : ev.map (·.pep) with
+  | nil => rw [hl] at h; simp at h
+  | cons a r =>
+    rw [hl] at h
+    simp only [Option.some.injEq] at h
+    subst h
+    constructor
+    · have := minRat_mem r a
+      rw [← hl] at this
+      obtain ⟨e, he, hee⟩ := List.mem_map.mp this
+      exact ⟨e, he, hee⟩
+    · intro e he
+      apply minRat_le r a
+      rw [← hl]
+      exact List.mem_map_of_mem he
+
+theorem minPep_isSome (ev : List Evidence) (h : ev ≠ []) : ∃ m, minPep ev = some m := by
+  cases ev with
+  | nil => exact absurd rfl h
+  | cons e r => exact ⟨_, rfl⟩
+
+theorem bestPepScoreWith_eq {S : Type} [LinearOrder S] (negLog : Rat → S) (hf : Antitone negLog) (d : S)
+    (ev : List Evidence) (m : Rat) (h : minPep ev = some m) :
+    bestPepScoreWith negLog d ev = negLog m := by
+  unfold minPep at h
+  unfold bestPepScoreWith
+  cases ev with
+  | nil => simp at h
+  | cons e r =>
+    simp only [List.map_cons, Option.some.injEq] at h ⊢
+    subst h
+    have := foldl_max_antitone negLog hf (r.map (·.pep)) e.pep
+    rw [List.map_map] at this
+    exact this
+
+/-! ### multiplied-PEP score -/
+
+theorem foldl_add_eq_sum (f : Rat → Rat) : ∀ (l : List Rat) (s : Rat),
+    l.foldl (fun s q => s + f q) s = s + (l.map f).sum := by
+  intro l
+  induction l with
+  | nil => intro s; simp
+  | cons a r ih => intro s; simp only [List.foldl_cons, List.map_cons, List.sum_cons]; rw [ih]; ring
+
+theorem evLe_pep (a b : Evidence) (h : evLe a b = true) : a.pep ≤ b.pep := by
+  simp only [evLe, Bool.or_eq_true, decide_eq_true_eq, Bool.and_eq_true, beq_iff_eq] at h
+  rcases h with h | ⟨h, _⟩
+  · exact le_of_lt h
+  · exact le_of_eq h
+
+theorem not_evLe_pep (a b : Evidence) (h : evLe a b = false) : b.pep ≤ a.pep := by
+  simp only [evLe, Bool.or_eq_false_iff, decide_eq_false_iff_not, Bool.and_eq_false_iff] at h
+  exact not_lt.mp h.1
+
+theorem insertEv_perm (a : Evidence) : ∀ l : List Evidence, (insertEv a l).Perm (a :: l) := by
+  intro l
+  induction l with
+  | nil => simp [insertEv]
+  | cons b r ih =>
+    simp only [insertEv]
+    split
+    · exact List.Perm.refl _
+    · exact (List.Perm.cons b ih).trans (List.Perm.swap a b r)
+
+theorem sortEv_perm : ∀ l : List Evidence, (sortEv l).Perm l := by
+  intro l
+  induction l with
+  | nil => simp [sortEv]
+  | cons a r ih =>
+    simp only [sortEv]
+    exact (insertEv_perm a (sortEv r)).trans (List.Perm.cons a ih)
+
+theorem insertEv_sorted (a : Evidence) : ∀ l : List Evidence, l.Pairwise (fun x y => x.pep ≤ y.pep) →
+    (insertEv a l).Pairwise (fun x y => x.pep ≤ y.pep) := by
+  intro l
+  induction l with
+  | nil => intro _; simp [insertEv]
+  | cons b r ih =>
+    intro h
+    simp only [insertEv]
+    obtain ⟨hb, hr⟩ := List.pairwise_cons.mp h
+    by_cases hle : evLe a b = true
+    · simp only [hle, if_true]
+      refine List.pairwise_cons.mpr ⟨?_, h⟩
+      intro y hy
+      rcases List.mem_cons.mp hy with rfl | hy
+      · exact evLe_pep _ _ hle
+      · exact le_trans (evLe_pep _ _ hle) (hb y hy)
+    · have hle' : evLe a b = false := by simpa using hle
+      simp only [hle', Bool.false_eq_true, if_false]
+      refine List.pairwise_cons.mpr ⟨?_, ih hr⟩
+      intro y hy
+      have := (insertEv_perm a r).subset hy
+      rcases List.mem_cons.mp this with rfl | hy
+      · exact not_evLe_pep _ _ hle'
+      · exact hb y hy
+
+theorem sortEv_sorted : ∀ l : List Evidence, (sortEv l).Pairwise (fun x y => x.pep ≤ y.pep) := by
+  intro l
+  induction l with
+  | nil => simp [sortEv]
+  | cons a r ih => exact insertEv_sorted a _ ih
+
+theorem firstOcc_subset : ∀ (l : List Evidence) (seen : List String), ∀ e ∈ firstOcc seen l, e ∈ l := by
+  intro l
+  induction l with
+  | nil => intro seen e h; simp [firstOcc] at h
+  | cons a r ih =>
+    intro seen e h
+    simp only [firstOcc] at h
+    split at h
+    · exact List.mem_cons_of_mem _ (ih seen e h)
+    · rcases List.mem_cons.mp h with rfl | h
+      · simp
+      · exact List.mem_cons_of_mem _ (ih _ e h)
+
+theorem firstOcc_sublist : ∀ (l : List Evidence) (seen : List String), (firstOcc seen l).Sublist l := by
+  intro l
+  induction l with
+  | nil => intro seen; simp [firstOcc]
+  | cons a r ih =>
+    intro seen
+    simp only [firstOcc]
+    split
+    · exact (ih seen).cons a
+    · exact (ih _).cons₂ a
+
+theorem firstOcc_not_seen : ∀ (l : List Evidence) (seen : List String), ∀ e ∈ firstOcc seen l, e.peptide ∉ seen := by
+  intro l
+  induction l with
+  | nil => intro seen e h; simp [firstOcc] at h
+  | cons a r ih =>
+    intro seen e h
+    simp only [firstOcc] at h
+    by_cases hc : seen.contains a.peptide = true
+    · simp only [hc, if_true] at h
+      exact ih seen e h
+    · have hc' : seen.contains a.peptide = false := by simpa using hc
+      rw [hc'] at h
+      simp only [Bool.false_eq_true, if_false] at h
+      rcases List.mem_cons.mp h with rfl | h
+      · simpa using hc
+      · have := ih _ e h
+        intro hs
+        exact this (List.mem_cons_of_mem _ hs)
+
+theorem firstOcc_nodup : ∀ (l : List Evidence) (seen : List String), ((firstOcc seen l).map (·.peptide)).Nodup := by
+  intro l
+  induction l with
+  | nil => intro seen; simp [firstOcc]
+  | cons a r ih =>
+    intro seen
+    simp only [firstOcc]
+    by_cases hc : seen.contains a.peptide = true
+    · simp only [hc, if_true]; exact ih seen
+    · have hc' : seen.contains a.peptide = false := by simpa using hc
+      rw [hc']
+      simp only [Bool.false_eq_true, if_false, List.map_cons]
+      refine List.nodup_cons.mpr ⟨?_, ih _⟩
+      intro hmem
+      obtain ⟨e, he, hee⟩ := List.mem_map.mp hmem
+      have := firstOcc_not_seen r (a.peptide :: seen) e he
+      apply this
+      rw [hee]; simp
+
+theorem firstOcc_cover : ∀ (l : List Evidence) (seen : List String), ∀ e ∈ l,
+    e.peptide ∈ seen ∨ e.peptide ∈ (firstOcc seen l).map (·.peptide) := by
+  intro l
+  induction l with
+  | nil => intro seen e h; simp at h
+  | cons a r ih =>
+    intro seen e h
+    simp only [firstOcc]
+    by_cases hc : seen.contains a.peptide = true
+    · simp only [hc, if_true]
+      rcases List.mem_cons.mp h with rfl | h
+      · left; simpa using hc
+      · exact ih seen e h
+    · have hc' : seen.contains a.peptide = false := by simpa using hc
+      rw [hc']
+      simp only [Bool.false_eq_true, if_false, List.map_cons, List.mem_cons]
+      rcases List.mem_cons.mp h with rfl | h
+      · right; left; rfl
+      · rcases ih (a.peptide :: seen) e h with h1 | h1
+        · rcases List.mem_cons.mp h1 with h2 | h2
+          · right; left; exact h2
+          · left; exact h2
+        · right; right; exact h1
+
+theorem firstOcc_least : ∀ (l : List Evidence) (seen : List String),
+    l.Pairwise (fun x y => x.pep ≤ y.pep) →
+    ∀ e ∈ firstOcc seen l, ∀ e' ∈ l, e'.peptide = e.peptide → e.pep ≤ e'.pep := by
+  intro l
+  induction l with
+  | nil => intro seen _ e h; simp [firstOcc] at h
+  | cons a r ih =>
+    intro seen hs e h e' he' hpep
+    obtain ⟨ha, hr⟩ := List.pairwise_cons.mp hs
+    simp only [firstOcc] at h
+    by_cases hc : seen.contains a.peptide = true
+    · simp only [hc, if_true] at h
+      rcases List.mem_cons.mp he' with rfl | he'
+      · exfalso
+        have := firstOcc_not_seen r seen e h
+        apply this
+        rw [← hpep]; simpa using hc
+      · exact ih seen hr e h e' he' hpep
+    · have hc' : seen.contains a.peptide = false := by simpa using hc
+      rw [hc'] at h
+      simp only [Bool.false_eq_true, if_false] at h
+      rcases List.mem_cons.mp h with rfl | h
+      · rcases List.mem_cons.mp he' with rfl | he'
+        · exact le_refl _
+        · exact ha e' he'
+      · rcases List.mem_cons.mp he' with rfl | he'
+        · exfalso
+          have := firstOcc_not_seen r (e'.peptide :: seen) e h
+          apply this
+          rw [← hpep]; simp
+        · exact ih _ hr e h e' he' hpep
+
+/-- the evidence tuples that enter the multPEP sum: first occurrence of every peptide in sorted order -/
+def kept (ev : List Evidence) : List Evidence := firstOcc [] (sortEv ev)
+
+/-- smallest PEP with which peptide `p` occurs in the evidence list (`0` if it does not occur) -/
+def minPepOf (ev : List Evidence) (p : String) : Rat :=
+  match (ev.filter (fun e => e.peptide == p)).map (·.pep) with
+  | [] => 0
+  | a :: r => minRat a r
+
+theorem kept_spec (ev : List Evidence) :
+    multPepTerms ev = (kept ev).map (·.pep) ∧
+    (∀ e ∈ kept ev, e ∈ ev) ∧
+    ((kept ev).map (·.peptide)).Nodup ∧
+    (∀ e ∈ ev, e.peptide ∈ (kept ev).map (·.peptide)) ∧
+    (∀ e ∈ kept ev, ∀ e' ∈ ev, e'.peptide = e.peptide → e.pep ≤ e'.pep) := by
+  refine ⟨rfl, ?_, firstOcc_nodup _ _, ?_, ?_⟩
+  · intro e he
+    exact (sortEv_perm ev).subset (firstOcc_subset _ _ e he)
+  · intro e he
+    have := firstOcc_cover (sortEv ev) [] e ((sortEv_perm ev).symm.subset he)
+    simpa [kept] using this
+  · intro e he e' he' hp
+    exact firstOcc_least (sortEv ev) [] (sortEv_sorted ev) e he e' ((sortEv_perm ev).symm.subset he') hp
+
+theorem kept_pep_eq_minPepOf (ev : List Evidence) (e : Evidence) (he : e ∈ kept ev) :
+    e.pep = minPepOf ev e.peptide := by
+  obtain ⟨_, hsub, _, _, hleast⟩ := kept_spec ev
+  unfold minPepOf
+  have hmem : ∀ x, x ∈ ev.filter (fun e' => e'.peptide == e.peptide) ↔ x ∈ ev ∧ x.peptide = e.peptide := by
+    intro x; simp [List.mem_filter]
+  cases hl : (ev.filter (fun e' => e'.peptide == e.peptide)).map (·.pep) with
+  | nil =>
+    have : e.pep ∈ (ev.filter (fun e' => e'.peptide == e.peptide)).map (·.pep) :=
+      List.mem_map_of_mem ((hmem e).mpr ⟨hsub e he, rfl⟩)
+    rw [hl] at this; simp at this
+  | cons a r =>
+    simp only
+    apply le_antisymm
+    · have := minRat_mem r a
+      rw [← hl] at this
+      obtain ⟨x, hx, hxe⟩ := List.mem_map.mp this
+      rw [← hxe]
+      exact hleast e he x ((hmem x).mp hx).1 ((hmem x).mp hx).2
+    · apply minRat_le r a
+      rw [← hl]
+      exact List.mem_map_of_mem ((hmem e).mpr ⟨hsub e he, rfl⟩)
+
+theorem kept_peptides_perm (ev : List Evidence) :
+    ((kept ev).map (·.peptide)).Perm (ev.map (·.peptide)).dedup := by
+  obtain ⟨_, hsub, hnd, hcov, _⟩ := kept_spec ev
+  rw [List.perm_ext_iff_of_nodup hnd (List.nodup_dedup _)]
+  intro p
+  rw [List.mem_dedup]
+  constructor
+  · intro hp
+    obtain ⟨e, he, rfl⟩ := List.mem_map.mp hp
+    exact List.mem_map_of_mem (hsub e he)
+  · intro hp
+    obtain ⟨e, he, rfl⟩ := List.mem_map.mp hp
+    exact hcov e he
+
+/-- the multPEP sum in closed form: one term per distinct peptide, at its smallest PEP -/
+theorem multPep_sum_closed (negLog : Rat → Rat) (ev : List Evidence) :
+    (multPepSumAndCount negLog ev).1 =
+      (((ev.map (·.peptide)).dedup).map (fun p => negLog (minPepOf ev p))).sum ∧
+    (multPepSumAndCount negLog ev).2 = ((ev.map (·.peptide)).dedup).length := by
+  unfold multPepSumAndCount
+  simp only
+  rw [foldl_add_eq_sum, zero_add]
+  have hterms : multPepTerms ev = (kept ev).map (·.pep) := rfl
+  rw [hterms]
+  constructor
+  · have h1 : ((kept ev).map (·.pep)).map negLog =
+        ((kept ev).map (·.peptide)).map (fun p => negLog (minPepOf ev p)) := by
+      rw [List.map_map, List.map_map]
+      apply List.map_congr_left
+      intro e he
+      simp only [Function.comp]
+      rw [kept_pep_eq_minPepOf ev e he]
+    rw [h1]
+    exact ((kept_peptides_perm ev).map _).sum_eq
+  · rw [List.length_map, ← (kept_peptides_perm ev).length_eq, List.length_map]
 
 end PgFdr.C05
